@@ -18,6 +18,10 @@ def check(repo: Repo, rep, tier):
     persist_before_write(repo, rep)
     always_pop(repo, rep)
     err_dropped(repo, rep)
+    parse_before_write(repo, rep)
+    from .C12 import utf8
+
+    utf8(repo, rep)
 
 
 def _calls_of(f, cfg, cg, key):
@@ -280,14 +284,15 @@ def always_pop(repo: Repo, rep):
 def err_dropped(repo: Repo, rep):
     rep.rule(
         "R-ERR-DROPPED",
-        "no handler of the storage error type (HashError) in the package swallows it (body without raise, raise_problem, warning or logging) on the way "
-        "from 'reference will be written' to 'data persisted'",
+        "no handler of the storage error type (HashError) anywhere in the package, and no exception handler at all inside the storage class DiscStorage, swallows its "
+        "exception (body without raise, raise_problem, warning or logging): on the way from 'reference will be written' to 'data persisted' a dropped error leaves a dangling reference",
     )
     cg = callgraph(repo)
     n = 0
     for f in repo.pkg_funcs():
         for h in [x for x in body_nodes(f.node) if isinstance(x, ast.ExceptHandler)]:
-            if h.type is None or "HashError" not in norm(h.type):
+            storage_layer = f.module.rel == "_external.py" and f.cls is not None and f.cls.name == "DiscStorage"
+            if not ((h.type is not None and "HashError" in norm(h.type)) or storage_layer):
                 continue
             n += 1
             body_calls = [norm(c.func) for s in h.body for c in ast.walk(s) if isinstance(c, ast.Call)]
@@ -300,7 +305,38 @@ def err_dropped(repo: Repo, rep):
                     "R-ERR-DROPPED",
                     f,
                     h,
-                    f"{f.qualname} swallows HashError: with an ambiguous hash prefix (e.g. hash-length=1) the reference is written while the data stays -new and is pruned at the next session start",
-                    construct="except HashError: " + " ".join(norm(s) for s in h.body)[:60],
+                    (f"{f.qualname} swallows HashError: with an ambiguous hash prefix (e.g. hash-length=1) the reference is written while the data stays -new and is pruned at the next session start")
+                    if h.type is not None and "HashError" in norm(h.type)
+                    else (f"{f.qualname} swallows `{norm(h.type) if h.type else 'every exception'}` of a storage operation: when e.g. the rename of a -new file fails, the session goes on and writes a reference to data that is not persisted"),
+                    construct=f"except {norm(h.type) if h.type else ''}: " + " ".join(norm(s) for s in h.body)[:60],
                 )
     rep.floor("R-ERR-DROPPED", "HashError handlers", n, 1)
+
+
+def parse_before_write(repo: Repo, rep):
+    rep.rule(
+        "R-PARSE-BEFORE-WRITE",
+        "pytest_sessionfinish parses the complete new content of EVERY file of the final recorder (ast.parse(<file>.new_code()) on every iteration of the loop "
+        "over <recorder>.files(), unconditionally) before fix_all() writes anything: unparsable content in any file aborts the session with all files untouched",
+    )
+    f = repo.func("pytest_plugin.py::pytest_sessionfinish")
+    cfg = cfg_of(f)
+    cg = callgraph(repo)
+    fixes = _calls_of(f, cfg, cg, "_rewrite_code.py::ChangeRecorder.fix_all")
+    rep.floor("R-PARSE-BEFORE-WRITE", "fix_all sites", len(fixes), 1)
+    for fn, fc in fixes:
+        rec = fc.func.value.id if isinstance(fc.func, ast.Attribute) and isinstance(fc.func.value, ast.Name) else None
+        loops = [n for n in cfg.live if n.kind == "for" and rec and norm(n.ast.iter) == f"{rec}.files()" and fn in reach(cfg, [n])]
+        good = False
+        for lp in loops:
+            parses = [n for n in cfg.live for c in node_calls(n) if norm(c.func) in ("ast.parse", "compile") and c.args and "new_code()" in norm(c.args[0]) and isinstance(lp.ast.target, ast.Name) and lp.ast.target.id in norm(c.args[0])]
+            body_start = [b for b, l in lp.succ if l == "iter"]
+            # every path of one iteration (from the loop's iter edge back to the loop head) passes a parse
+            r = reach(cfg, body_start, blocked_nodes=parses + [lp])
+            reaches_head = any(lp in [b for b, _ in x.succ] for x in r) or any(b is lp for x in body_start for b, _ in x.succ if x in parses and False)
+            if parses and not reaches_head and nodes_dominate(cfg, [lp], fn):
+                good = True
+        if good:
+            rep.ok("R-PARSE-BEFORE-WRITE", f, fc, "every file's new code is parsed before fix_all")
+        else:
+            rep.violation("R-PARSE-BEFORE-WRITE", f, fc, "fix_all() can write although the new content of some file was never parsed (the check is skipped or conditional): a value whose repr is not an expression leaves a test file that no longer compiles", construct="unparsed-write")
